@@ -57,6 +57,7 @@ type sinkRec struct {
 	In     time.Time
 	Out    time.Time
 	Ret    string
+	RO     bool // the payload was already marked read-only when it reached the consumer
 }
 
 type sink struct {
@@ -86,7 +87,7 @@ func (s *sink) take(id string) []sinkRec {
 
 func (s *sink) calls() int64 { s.mu.Lock(); defer s.mu.Unlock(); return s.total }
 
-func (s *sink) consume(signal, id string, b []byte, items int) error {
+func (s *sink) consume(signal, id string, b []byte, items int, ro ...bool) error {
 	in := time.Now()
 	s.mu.Lock()
 	s.total++
@@ -102,7 +103,7 @@ func (s *sink) consume(signal, id string, b []byte, items int) error {
 	}
 	out := time.Now()
 	s.mu.Lock()
-	s.recs[id] = append(s.recs[id], sinkRec{Signal: signal, Bytes: b, Items: items, In: in, Out: out, Ret: rs})
+	s.recs[id] = append(s.recs[id], sinkRec{Signal: signal, Bytes: b, Items: items, In: in, Out: out, Ret: rs, RO: len(ro) > 0 && ro[0]})
 	s.mu.Unlock()
 	return ret
 }
@@ -116,7 +117,9 @@ func (s *sink) logs() consumer.Logs {
 			}
 		}
 		b, _ := (&plog.ProtoMarshaler{}).MarshalLogs(ld)
-		return s.consume("logs", id, b, ld.LogRecordCount())
+		ro := ld.IsReadOnly()
+		ld.MarkReadOnly() // the receiver feeds several pipelines: the fan-out shares the payload read-only
+		return s.consume("logs", id, b, ld.LogRecordCount(), ro)
 	})
 	return c
 }
@@ -130,7 +133,9 @@ func (s *sink) traces() consumer.Traces {
 			}
 		}
 		b, _ := (&ptrace.ProtoMarshaler{}).MarshalTraces(td)
-		return s.consume("traces", id, b, td.SpanCount())
+		ro := td.IsReadOnly()
+		td.MarkReadOnly() // the receiver feeds several pipelines: the fan-out shares the payload read-only
+		return s.consume("traces", id, b, td.SpanCount(), ro)
 	})
 	return c
 }
@@ -144,7 +149,9 @@ func (s *sink) metrics() consumer.Metrics {
 			}
 		}
 		b, _ := (&pmetric.ProtoMarshaler{}).MarshalMetrics(md)
-		return s.consume("metrics", id, b, md.DataPointCount())
+		ro := md.IsReadOnly()
+		md.MarkReadOnly() // the receiver feeds several pipelines: the fan-out shares the payload read-only
+		return s.consume("metrics", id, b, md.DataPointCount(), ro)
 	})
 	return c
 }
@@ -158,7 +165,9 @@ func (s *sink) profiles() xconsumer.Profiles {
 			}
 		}
 		b, _ := (&pprofile.ProtoMarshaler{}).MarshalProfiles(pd)
-		return s.consume("profiles", id, b, pd.SampleCount())
+		ro := pd.IsReadOnly()
+		pd.MarkReadOnly()
+		return s.consume("profiles", id, b, pd.SampleCount(), ro)
 	})
 	return c
 }
